@@ -1395,7 +1395,8 @@ class Exec:
         if not cc.nopanic and not cc.trusted:
             self.oblige('callee-may-panic', 'call of %s (contract lacks nopanic)' % cname, self.reach, 'false', ['C03'], line, site=site)
         # recursion: measure must decrease
-        if cf is not None and callee == self.top.f.name and self.top.contract is not None:
+        same_group = (self.top.contract is not None and cc.recgroup is not None and cc.recgroup == self.top.contract.recgroup)
+        if cf is not None and (callee == self.top.f.name or same_group) and self.top.contract is not None:
             tc = self.top.contract
             if tc.assume_terminates:
                 pass
@@ -1404,9 +1405,12 @@ class Exec:
             else:
                 ev0 = SpecEval(vc, tc.pkg, self.top.entry_env, self.top.entry_state, None)
                 m0 = [ev0.eval(x) for x in tc.decreases.expr]
-                ev1 = SpecEval(vc, cc.pkg, env, pre, None)
-                m1 = [ev1.eval(x) for x in cc.decreases.expr]
-                self.oblige('decreases', 'recursive call: ' + tc.decreases.text, self.reach, lex_less(m1, m0), ['C03'], line, site=site)
+                if cc.decreases is None:
+                    self.oblige('decreases', 'call into the recursion group without a measure on the callee', self.reach, 'false', ['C03'], line, site=site)
+                else:
+                    ev1 = SpecEval(vc, cc.pkg, env, pre, None)
+                    m1 = [ev1.eval(x) for x in cc.decreases.expr]
+                    self.oblige('decreases', 'recursive call: ' + tc.decreases.text, self.reach, lex_less(m1, m0), ['C03'], line, site=site)
         # frame of the caller: callee's assigns must be within ours
         post = pre.copy()
         if cc.assigns is None:
